@@ -36,7 +36,15 @@ ATOMS = [('a', [], ''), ('x+y', [], ''), (' ', [], ''), ('1', [], ''), ('=', [],
          ('\\infty)', ['infty'], 'zero-op'), ('\\notin(', ['notin'], 'zero-op'), ('\\in\n[a', ['in'], 'zero-op'),
          ('\\cup{a}', ['cup'], 'zero-op'),
          ('\\text{ a [ b }', ['text'], 'cmd'), ('\\mbox{(}', ['mbox'], 'cmd'),
-         ('\\\\', [], ''), ('%c]$\n', [], 'comment'), ('\\,', [], ''), ('\\{', [], ''), ('\\|', [], '')]
+         ('\\\\', [], ''), ('%c]$\n', [], 'comment'), ('\\,', [], ''), ('\\{', [], ''), ('\\|', [], ''),
+         # an ordinary command directly followed by another command / a bare token instead of a group
+         ('\\boldsymbol\\alpha', ['boldsymbol', 'alpha'], 'cmd0'), ('\\vec\\nabla', ['vec', 'nabla'], 'cmd0'),
+         ('\\bar x =', ['bar'], ''), ('\\operatorname{sgn}', ['operatorname'], 'cmd'), ('\\frac\\alpha\\beta', ['frac', 'alpha', 'beta'], 'cmd0'),
+         ('\\sqrt\\pi', ['sqrt', 'pi'], 'cmd0')]
+# names that are new in the package source (vlib/texgen.EXTRA_NAMES): the same shapes under those names
+for _n in G.EXTRA_NAMES:
+    if _n.isalpha():
+        ATOMS += [('\\%s\\alpha' % _n, [_n, 'alpha'], 'cmd0'), ('\\%s x =' % _n, [_n], ''), ('\\%s{v}' % _n, [_n], 'cmd')]
 SIZING = [(p, d) for p in G.SIZE_PREFIX for d in G.DELIMS]
 CONTEXTS = [
     ('top', 'T ', ' Z', True),
